@@ -131,13 +131,14 @@ NOT_YET = {
 }
 
 CHECKS['C11'] = dict(
-    technique='static analysis (PARTIAL - structural necessary conditions only): grammar<->transformer agreement on the lark-compiled Verilog and bench grammars, finite evaluation of the range formula, slot checks of port bookkeeping, pin/signal pairing at the two connection sites, constant expansion, escaped-name stripping, bench driver order, branch-fork block',
-    text='PARTIAL CLAIM. The behavioural statement of C11 ("simulates as the described netlist" for every netlist text) is NOT decided; static analysis cannot bound it. Decided are clauses visible in the shape of verilog.py/bench.py '
-         'that are genuine necessary conditions: callbacks agree with what the grammars deliver; [l:r] enumerates l..r inclusive in both directions (all 64 cases); ports get consecutive positions in header order with bus bits in range order; '
-         'pin name and signal come from the same pin-map item and the pin index is looked up for the instantiated type, with direction deciding the Line orientation; sized constants expand MSB first; escaped names lose exactly backslash and terminator; '
-         'bench creates cell + same-named fork with drivers in argument order; the branch-fork option only inserts a fork.',
-    note='NOT decided (and a change that only breaks these is not detected): the multi-pass bookkeeping of declarations / driven signals / assigns / one-bit buses, statement-order independence, whitespace/comment placement, equivalence of the two formats, lexer ambiguities, and the end-to-end Boolean function. Needs generated netlists + simulation (another family).',
-    ref='DESIGN.md 2/C11 and 6')
+    technique='static analysis plus bounded evaluation: grammar<->transformer agreement on the lark-compiled Verilog and bench grammars; the Verilog transformer\'s own callbacks applied bottom-up (Engine M) to the parse trees of a family of module descriptions with stand-in graph classes, netlist compared with the meaning of the description; bench driver order',
+    text='BOUNDED CLAIM. The behavioural statement of C11 ("simulates as the described netlist" for every netlist text) is decided for a family of 30 module descriptions (buses both ways, header vs declaration order, constants, concatenations, assigns both ways round, '
+         'escaped names, unconnected and positional pins, two-output cells, undriven signals, one-bit vectors, supply-net names; with and without branch forks): ports, every pin connection, every output and the fork structure of the netlist the transformer builds equal what the '
+         'description means. Beyond that family the claim rests on the shape of the code: callbacks agree with what the grammars deliver (arity, kind, exhaustiveness), the ignored-token terminal equals the comment language on all short strings, the transformer object is '
+         'created per parse, bench creates cell + same-named fork with drivers in argument order.',
+    note='NOT decided: netlist texts outside the evaluated family (other statement orders and declaration styles, chained assigns), whitespace/comment placement beyond the lexical rule, equivalence of the two formats, the bench transformer beyond its structural rule. '
+         'A Verilog callback changed beyond the normal form that the evaluation cannot run ends the check with exit 2 (undecided), never a pass.',
+    ref='DESIGN.md 2/C11, 6 and 8.6 (round 4)')
 
 NOT_APPLICABLE = {
 }
